@@ -383,7 +383,7 @@ def gen_config(rng, prop, tier):
         km = {'kind': 'hash', 'arg': 'md5', 'flat': True, 'typed': False, 'sentinel': fn in VARIADIC}
     cfg = {'module': module, 'algo': algo, 'maxsize': maxsize, 'maxsize_pos': maxsize_pos,
            'purge': purge, 'keymap': km, 'fn': fn,
-           'backend': B.config(label, 'm0') if label else None, 'direct': direct,
+           'backend': B.config(label, B.odd_name(rng, label, 'm0')) if label else None, 'direct': direct,
            'ignore': None, 'tol': None, 'deep': False, 'wide': wide,
            'bigres': label in ('dir-z', 'dir-fast', 'dir-mmap', 'dir-pkl', 'file-pkl', 'sql-file') and not wide
            and rng.chance(0.12)}
